@@ -395,16 +395,39 @@ func newCircRun(p *circParams) *circRun {
 	cfg.Metrics.Run = make([]circuit.RunMetrics, 0, p.NRun+4)
 	cfg.Metrics.Fallback = make([]circuit.FallbackMetrics, 0, p.NFb+4)
 	cfg.Metrics.Circuit = make([]circuit.Metrics, 0, p.NCirc+4)
+	// the user's collectors come from TWO configuration layers, as with a Manager: the first half in the explicit
+	// config, the rest from a DefaultCircuitProperties constructor (lists merge receiver-then-other, so the order is kept)
+	var layer circuit.Config
 	for i := 0; i < p.NRun; i++ {
-		cfg.Metrics.Run = append(cfg.Metrics.Run, &recRun{h: h, who: fmt.Sprintf("(WUser %d%%nat)", i)})
+		rc := &recRun{h: h, who: fmt.Sprintf("(WUser %d%%nat)", i)}
+		if i < (p.NRun+1)/2 {
+			cfg.Metrics.Run = append(cfg.Metrics.Run, rc)
+		} else {
+			layer.Metrics.Run = append(layer.Metrics.Run, rc)
+		}
 	}
 	for i := 0; i < p.NFb; i++ {
-		cfg.Metrics.Fallback = append(cfg.Metrics.Fallback, &recFb{h: h, i: i})
+		rc := &recFb{h: h, i: i}
+		if i < (p.NFb+1)/2 {
+			cfg.Metrics.Fallback = append(cfg.Metrics.Fallback, rc)
+		} else {
+			layer.Metrics.Fallback = append(layer.Metrics.Fallback, rc)
+		}
 	}
 	for i := 0; i < p.NCirc; i++ {
-		cfg.Metrics.Circuit = append(cfg.Metrics.Circuit, &recCirc{h: h, who: fmt.Sprintf("(WUser %d%%nat)", i)})
+		rc := &recCirc{h: h, who: fmt.Sprintf("(WUser %d%%nat)", i)}
+		if i < (p.NCirc+1)/2 {
+			cfg.Metrics.Circuit = append(cfg.Metrics.Circuit, rc)
+		} else {
+			layer.Metrics.Circuit = append(layer.Metrics.Circuit, rc)
+		}
 	}
-	h.c = circuit.NewCircuitFromConfig("x", cfg)
+	if (p.NRun+p.NFb+p.NCirc)%2 == 1 {
+		// a substitute clock given as Now alone (the timer factory left to the library's default)
+		cfg.General.TimeKeeper = circuit.TimeKeeper{Now: h.Now}
+	}
+	mgr := &circuit.Manager{DefaultCircuitProperties: []circuit.CommandPropertiesConstructor{func(string) circuit.Config { return layer }}}
+	h.c = mgr.MustCreateCircuit("x", cfg)
 	// a second circuit built from the same Config value (same backing arrays), with its own collectors appended over the
 	// shared prefix and the default open/close logic: nothing it does may reach, or take away, the first circuit's collectors
 	{
@@ -791,7 +814,7 @@ func (p circParams) coqHead() string {
 
 func emitCirc(w io.Writer, f *hc.File, imports string) {
 	fmt.Fprintln(w, "From CV Require Import Base.Prelude Seq.RollingCounter Seq.TimedCheck Seq.Logic Seq.Circuit Seq.CaseCheck Seq.CircuitCase"+imports+".")
-	fmt.Fprintf(w, "Definition t0 : Z := %d.\n", hc.T0.UnixNano())
+	fmt.Fprintf(w, "Definition t0 : Z := %s.\n", hc.ZofTime(hc.T0))
 	fmt.Fprintln(w, "Definition cases : list circ_case := [")
 	for i, c := range f.Cases {
 		var p circParams
